@@ -182,6 +182,34 @@ def dispatch (op : String) (a : Args) : Option String :=
       let l1 ← a.get "l1" >>= parseBinsOf parseItems
       let l2 ← a.get "l2" >>= parseBinsOf parseItems
       pure (jList jBins (allCombContents nmOf (Bins.mk s1 l1) (Bins.mk s2 l2)))
+  | "bin_completion" => do
+      pure (match BC.binCompletion (← a.nat "B") ((← a.items "items").map val) FUEL with
+            | .ok bins => "{\"sums\":" ++ jNats (bins.map sumL) ++ ",\"bins\":" ++ jList jNats bins ++ "}"
+            | .error e => jErr e)
+  | "is_dominant" => do pure (toString (BC.isDom (← a.nats "l1") (← a.nats "l2")))
+  | "completions" => do pure (jList jNats (BC.completions (← a.nat "x") (← a.nats "items") (← a.nat "B")))
+  | "check_partition" => do
+      let lists ← a.get "bins" >>= parseBinsOf parseItems
+      pure (toString (checkPartition val (← a.items "items") (← a.nat "k") (Bins.mk (← a.nats "sums") lists)))
+  | "check_packing" => do
+      let lists ← a.get "bins" >>= parseBinsOf parseItems
+      pure (toString (checkPacking val (← a.nat "B") (← a.items "items") (Bins.mk (← a.nats "sums") lists)))
+  | "check_cover" => do
+      let lists ← a.get "bins" >>= parseBinsOf parseItems
+      pure (toString (checkCover val (← a.nat "B") (← a.items "items") (Bins.mk (← a.nats "sums") lists)))
+  | "opt_bins" => do
+      pure (match optBins (← a.nat "B") (← a.nats "vals") with
+            | some m => toString m
+            | none => jErr .valueError)
+  | "opt_cover" => do pure (toString (optCover (← a.nat "B") (← a.nats "vals")))
+  | "opt_balanced" => do
+      let d : Option Nat ← match (← a.get "d") with
+        | "inf" => pure none
+        | s => s.toNat?.map some
+      let vals ← a.nats "vals"
+      pure (match optBalanced (d.getD (vals.length + 1)) vals with
+            | some m => toString m
+            | none => "{\"none\":true}")
   | "objvalue" => do
       let o ← a.get "obj" >>= parseObjective
       pure (jInt (o.value (← a.nats "sums") (← a.bool "sorted")))
